@@ -211,7 +211,7 @@ func tryPartialOp(env Env, nodes []ast.IsNode, selects bool,
 	mkNode func(nodes []ast.IsNode) ast.IsNode,
 ) (ast.IsNode, error) {
 	var values []types.Value
-	ok := true
+	ok, ignored := true, false
 	for i, orig := range nodes {
 		n, err := partial(env, orig)
 		if errors.Is(err, errVariable) {
@@ -221,10 +221,21 @@ func tryPartialOp(env Env, nodes []ast.IsNode, selects bool,
 			return nil, err
 		}
 		nodes[i] = residualOperand(orig, n)
+		v, vok := n.(ast.NodeValue)
+		if vok {
+			// an ignored value nested in an operand makes the operator ignored just like an ignored operand does,
+			// also when another operand is still unknown
+			if _, hasIgnore := containsUnknown(v.Value); hasIgnore {
+				if !selects {
+					return nil, errIgnore
+				}
+				ignored = true
+			}
+		}
 		if !ok {
 			continue
 		}
-		if v, vok := n.(ast.NodeValue); vok {
+		if vok {
 			values = append(values, v.Value)
 			continue
 		}
@@ -232,12 +243,14 @@ func tryPartialOp(env Env, nodes []ast.IsNode, selects bool,
 	}
 	if ok && !selects {
 		for _, v := range values {
-			if hasVar, hasIgnore := containsUnknown(v); hasIgnore {
-				return nil, errIgnore
-			} else if hasVar {
+			if hasVar, _ := containsUnknown(v); hasVar {
 				return mkNode(nodes), errVariable
 			}
 		}
+	}
+	if !ok && ignored {
+		// the composite cannot be built or selected from yet; what finally consumes it would read the ignored value
+		return nil, errIgnore
 	}
 	if ok {
 		eval := mkEval(values)
@@ -509,6 +522,14 @@ func partialIfThenElse(env Env, v ast.NodeTypeIfThenElse) (ast.IsNode, error) {
 	} else if elseErr != nil && !errors.Is(elseErr, errVariable) {
 		elseNode = extError(elseErr)
 	}
+	for _, branch := range []ast.IsNode{thenNode, elseNode} {
+		// which branch is taken is unknown: a branch value holding an ignored value counts as a reference to it
+		if bv, ok := branch.(ast.NodeValue); ok {
+			if _, hasIgnore := containsUnknown(bv.Value); hasIgnore {
+				return nil, errIgnore
+			}
+		}
+	}
 	return ast.NodeTypeIfThenElse{If: ifNode, Then: residualOperand(v.Then, thenNode), Else: residualOperand(v.Else, elseNode)}, nil
 }
 
@@ -530,6 +551,11 @@ func partialIsInShortCircuit(env Env, v ast.NodeTypeIsIn) (n ast.IsNode, done bo
 		case rightErr != nil:
 			right = extError(rightErr)
 		default:
+			if rv, ok := right.(ast.NodeValue); ok {
+				if _, hasIgnore := containsUnknown(rv.Value); hasIgnore {
+					return nil, true, errIgnore
+				}
+			}
 			right = residualOperand(v.Entity, right)
 		}
 		return ast.NodeTypeIsIn{NodeTypeIs: ast.NodeTypeIs{Left: v.Left, EntityType: v.EntityType}, Entity: right}, true, nil
